@@ -151,7 +151,7 @@ def check_thread(cx, chk, rule_gen):
                     chk.violation("C08.thread", tag, "%s passes settings %s to %s instead of the settings it received: the callee "
                                   "would be generated under another rule's / default whitespace mode" % (short(p), mir.show(root), callee),
                                   cx.site(b, i))
-    chk.floor("C08.thread", "settings hand-overs", n, 88)
+    chk.floor("C08.thread", "settings hand-overs", n, 50)
     # CodegenSettings values are only built in Default, Clone, the rule generator (and set up by builders)
     for p, b in codegen_bodies(cx):
         for i in b.reach:
@@ -231,7 +231,7 @@ def check_route(cx, chk):
                     else:
                         chk.violation("C08.route", "%s builds parse_ identifier" % short(p),
                                       "%s builds a `parse_<Rule>` identifier itself instead of going through the skip helper" % short(p), cx.site(b, j))
-    chk.floor("C08.route", "atom-name sites", n, 13)
+    chk.floor("C08.route", "atom-name sites", n, 7)
 
 
 def check_tmpl(cx, chk):
